@@ -164,6 +164,9 @@ pub fn check_callbacks(rep: &Reply, accounting: bool) -> Result<(usize, usize), 
                 if !*ok {
                     return Err(format!("create_node_{kind} announced node {r}, which is not a closed `{kind}` rule node at that instant"));
                 }
+                if dump == "<reading the announced node panics>" {
+                    return Err(format!("create_node_{kind} announced node {r}; reading its children at that instant panics (extent beyond the node vector)"));
+                }
                 *created.entry(dump.clone()).or_default() += 1;
             }
             Event::Deleted(_, _, dump) => {
